@@ -147,7 +147,7 @@ def post(job, pid):
             excerpt = err[start:m.start() + 2500]
             prop = classify(err[m.start():m.start() + 2500], pid)
             job.tool_violations.append({"property": prop, "rule": "miri:" + re.sub(r"alloc\d+|0x[0-9a-f]+", "_", m.group(0))[:160], "subject": job.label.split("/")[0], "detail": excerpt, "tool": "miri", "label": job.label, "argv": job.argv, "miriflags": (job.env or {}).get("MIRIFLAGS")})
-        elif job.summary is None and job.rc not in (0, "timeout"):
+        elif job.summary is None and job.rc not in (0, "timeout", "terminated"):
             job.note = f"miri exited {job.rc} without report: " + err[-300:]
     elif job.tool == "asan":
         m = re.search(r"ERROR: (AddressSanitizer|LeakSanitizer)[^\n]*", err)
